@@ -1169,3 +1169,151 @@ Proof.
   pose proof (expire_req_log cfg s r q rc Hcfg Hbdm Hidx HJ G Ha Grc Hb) as Hl.
   destruct (c_super rc); exact Hl.
 Qed.
+
+(* ================================================================== *)
+(* Examples on a concrete history                                      *)
+(* ================================================================== *)
+(* Owner 10 binds providers 11 and 12 to service 1 (price 100, deposit 400 each).
+   Consumer 20 opens a repeated context (timeout 10, frequency 10, total 2).
+   Block 1 issues batch 1 (two requests, 100 each, debit 200).  Provider 11 answers
+   with a valid output (tax 10, earns 90); provider 12 answers with a malformed
+   output (slashed 100, fee refunded).  Block 11 issues batch 2 (debit 200); nobody
+   answers; block 21 expires both requests (slashed 100 and 75, both refunded) and
+   removes the context. *)
+
+Definition tx_cfg : Params :=
+  mkParams 100 (* max timeout *) 2 (* multiple *) 150 (* min deposit *)
+           (ONE / 10) (* tax 0.1 *) (ONE / 4) (* slash 0.25 *)
+           30 20 999 (* module service *) 77 (* callback module *).
+Definition tx_raw : RawPricing := mkRaw (100 * ONE) [] [].
+Definition tx_c : CtxId := (4242, 0).
+Definition tx_r1 : ReqId := (tx_c, 1, 1, 0).
+Definition tx_r2 : ReqId := (tx_c, 1, 1, 1).
+Definition tx_r3 : ReqId := (tx_c, 2, 11, 0).
+Definition tx_r4 : ReqId := (tx_c, 2, 11, 1).
+Definition tx_ops : list Op :=
+  [ ODefine 1 7 true;
+    OBind 1 11 (CBase 400) (Some tx_raw) 5 10 true;
+    OBind 1 12 (CBase 400) (Some tx_raw) 5 10 true;
+    OCall tx_c 1 [11; 12] 20 0 (CBase 500) 10 false true 10 2 true true;
+    OEndBlock 5;
+    ORespond tx_r1 11 0 5 true true;
+    ORespond tx_r2 12 0 5 false true ]
+  ++ repeat (OEndBlock 5) 20.
+Definition tx_s0 : State := init 1 1000 [(10, 1000); (20, 1000)].
+Definition tx_s : State := run tx_cfg tx_s0 tx_ops.
+(* after the first EndBlock: batch 1 issued, nothing answered *)
+Definition tx_open : State := run tx_cfg tx_s0 (firstn 5 tx_ops).
+(* just before the first EndBlock *)
+Definition tx_called : State := run tx_cfg tx_s0 (firstn 4 tx_ops).
+
+Example tx_cfg_wf : wf_cfg tx_cfg.
+Proof. unfold wf_cfg. repeat match goal with |- _ /\ _ => split end; zc. Qed.
+
+Example tx_all_ok :
+  map (fun n => snd (step tx_cfg (run tx_cfg tx_s0 (firstn n tx_ops)) (nth n tx_ops (OEndBlock 0))))
+      (seq 0 27) = repeat ROk 27.
+Proof. vm_compute. reflexivity. Qed.
+
+Example tx_reach : Reach tx_cfg tx_s.
+Proof.
+  apply reach_init_run; [lia|lia|wf_funding_tac|].
+  unfold tx_ops. cbn [repeat app]. wf_run_tac.
+Qed.
+
+Example tx_open_reach : Reach tx_cfg tx_open.
+Proof.
+  apply reach_init_run; [lia|lia|wf_funding_tac|].
+  unfold tx_ops. cbn [repeat app firstn]. wf_run_tac.
+Qed.
+
+Example tx_log :
+  log tx_s =
+  [ EvCtxRemoved tx_c; EvBatchDone tx_c 2;
+    EvExpire tx_r4; EvRefund tx_r4 20 100; EvSlash tx_r4 (1, 12) 75;
+    EvExpire tx_r3; EvRefund tx_r3 20 100; EvSlash tx_r3 (1, 11) 100;
+    EvBatchStart tx_c 2 11 2; EvIssue tx_r4 12 20 100; EvIssue tx_r3 11 20 100; EvDebit tx_c 20 200;
+    EvBatchDone tx_c 1;
+    EvRespond tx_r2; EvRefund tx_r2 20 100; EvSlash tx_r2 (1, 12) 100;
+    EvRespond tx_r1; EvEarn tx_r1 11 90; EvTax tx_r1 10;
+    EvBatchStart tx_c 1 1 2; EvIssue tx_r2 12 20 100; EvIssue tx_r1 11 20 100; EvDebit tx_c 20 200;
+    EvCtxCreated tx_c; EvDepositIn (1, 12) 10 400; EvDepositIn (1, 11) 10 400 ].
+Proof. vm_compute. reflexivity. Qed.
+
+(* trace_counts / settle_once / slash_at_most_once: the four count vectors *)
+Example tx_counts :
+  counts tx_r1 (log tx_s) = (1, 1, 1, 1, 0, 0, 0)%nat       (* answered *)
+  /\ counts tx_r2 (log tx_s) = (1, 1, 0, 0, 1, 1, 0)%nat    (* malformed answer *)
+  /\ counts tx_r3 (log tx_s) = (1, 0, 0, 0, 1, 1, 1)%nat    (* timed out *)
+  /\ counts tx_r4 (log tx_s) = (1, 0, 0, 0, 1, 1, 1)%nat
+  /\ counts (tx_c, 3, 21, 0) (log tx_s) = (0, 0, 0, 0, 0, 0, 0)%nat.
+Proof. vm_compute. repeat split. Qed.
+
+(* request_trace: the per-request traces *)
+Example tx_traces :
+  tr tx_r1 (log tx_s) = [EvRespond tx_r1; EvEarn tx_r1 11 90; EvTax tx_r1 10; EvIssue tx_r1 11 20 100]
+  /\ tr tx_r2 (log tx_s) = [EvRespond tx_r2; EvRefund tx_r2 20 100; EvSlash tx_r2 (1, 12) 100; EvIssue tx_r2 12 20 100]
+  /\ tr tx_r3 (log tx_s) = [EvExpire tx_r3; EvRefund tx_r3 20 100; EvSlash tx_r3 (1, 11) 100; EvIssue tx_r3 11 20 100]
+  /\ tr tx_r1 (log tx_open) = [EvIssue tx_r1 11 20 100].
+Proof. vm_compute. repeat split. Qed.
+
+(* the theorems instantiated on the history (the hypotheses are discharged by computation) *)
+Example tx_settle_once := settle_once tx_cfg tx_s tx_r2 tx_cfg_wf tx_reach.
+Example tx_party_amount := settle_party_amount tx_cfg tx_s tx_r1 tx_cfg_wf tx_reach.
+Example tx_slash_once := slash_at_most_once tx_cfg tx_s tx_r3 tx_cfg_wf tx_reach.
+Example tx_ids_fresh := ids_fresh tx_cfg tx_s tx_cfg_wf tx_reach.
+
+(* ids_fresh / stored_issued / active_unsettled on the open batch *)
+Example tx_open_facts :
+  get tx_r1 (reqs tx_open) = Some (mkReq 11 100 11 true)
+  /\ get tx_r2 (reqs tx_open) = Some (mkReq 12 100 11 true)
+  /\ counts tx_r1 (log tx_open) = (1, 0, 0, 0, 0, 0, 0)%nat
+  /\ counts tx_r2 (log tx_open) = (1, 0, 0, 0, 0, 0, 0)%nat
+  /\ In (EvIssue tx_r1 11 20 100) (log tx_open)
+  /\ c_cons (ctx_or_zero tx_open tx_c) = 20 /\ c_counter (ctx_or_zero tx_open tx_c) = 1.
+Proof. vm_compute. repeat split; auto. Qed.
+
+Example tx_active_unsettled :
+  counts tx_r1 (log tx_open) = (1, 0, 0, 0, 0, 0, 0)%nat.
+Proof.
+  apply (active_unsettled tx_cfg tx_open tx_r1 (mkReq 11 100 11 true) tx_cfg_wf tx_open_reach);
+    vm_compute; reflexivity.
+Qed.
+
+(* settle_party_amount: fee 100, tax rate 0.1: tax 10, provider 11 earns 90; refunds of 100 to consumer 20 *)
+Example tx_amounts :
+  mul_trunc 100 (p_tax tx_cfg) = 10
+  /\ In (EvEarn tx_r1 11 90) (log tx_s) /\ In (EvTax tx_r1 10) (log tx_s) /\ 90 + 10 = 100
+  /\ In (EvRefund tx_r2 20 100) (log tx_s) /\ In (EvIssue tx_r2 12 20 100) (log tx_s).
+Proof. vm_compute. repeat split; auto 30. Qed.
+
+(* debit_exact: the first run of the new-batch handler *)
+Example tx_debit :
+  log (new_one tx_cfg tx_called tx_c)
+  = [EvBatchStart tx_c 1 1 2; EvIssue tx_r2 12 20 100; EvIssue tx_r1 11 20 100; EvDebit tx_c 20 200]
+      ++ log tx_called
+  /\ issue_fees [EvBatchStart tx_c 1 1 2; EvIssue tx_r2 12 20 100; EvIssue tx_r1 11 20 100; EvDebit tx_c 20 200] = 200
+  /\ bal tx_called (User 20) = 1000 /\ bal (new_one tx_cfg tx_called tx_c) (User 20) = 800
+  /\ bal tx_called Escrow = 0 /\ bal (new_one tx_cfg tx_called tx_c) Escrow = 200.
+Proof. vm_compute. repeat split. Qed.
+
+(* slash_only_when_failing / expiry_slashes / slash_amount: deposits 400 -> 300 (r2) -> 225 (r4),
+   400 -> 300 (r3); amounts 100 = 400/4, 75 = 300/4, 100 = 400/4 *)
+Example tx_slashes :
+  filter (fun e => match e with EvSlash _ _ _ => true | _ => false end) (log tx_s)
+  = [EvSlash tx_r4 (1, 12) 75; EvSlash tx_r3 (1, 11) 100; EvSlash tx_r2 (1, 12) 100]
+  /\ mul_trunc 400 (p_slash tx_cfg) = 100 /\ mul_trunc 300 (p_slash tx_cfg) = 75
+  /\ In (EvExpire tx_r3) (log tx_s) /\ In (EvExpire tx_r4) (log tx_s)
+  /\ In (EvRespond tx_r2) (log tx_s) /\ In (EvRefund tx_r2 20 100) (log tx_s)
+  /\ option_map b_deposit (get (1, 11) (binds tx_s)) = Some 300
+  /\ option_map b_deposit (get (1, 12) (binds tx_s)) = Some 225
+  /\ bal tx_s Deposit = 525 /\ supply tx_s = 2000 - 275.
+Proof. vm_compute. repeat split; auto 30. Qed.
+
+(* slash_amount on the malformed answer: the state in which r2 is slashed *)
+Example tx_slash_call :
+  exists s1, slash tx_cfg (run tx_cfg tx_s0 (firstn 6 tx_ops)) tx_r2 = Ok s1
+    /\ log s1 = EvSlash tx_r2 (1, 12) 100 :: log (run tx_cfg tx_s0 (firstn 6 tx_ops))
+    /\ option_map b_deposit (get (1, 12) (binds s1)) = Some 300
+    /\ bal s1 Deposit = 700 /\ supply s1 = 1900.
+Proof. eexists. split; [vm_compute; reflexivity|]. vm_compute. repeat split. Qed.
